@@ -189,6 +189,16 @@ def main():
             samples.append(case)
         if problems:
             failures.append({'id': f'wire{scen}', 'class': None, 'case': case, 'detail': problems[:3]})
+    # stream uploads with SMALL chunk sizes (what the commands choose under a low rate limit: rate // (16 * concurrency))
+    for cs in (1, 7, 50, 63, 64, 65):
+        scen += 1
+        try:
+            problems, n = lib.run(scenario(['data/ab/cd-small'], 'data/', [], lib.content(seed + cs, 300), cs))
+        except Exception as e:
+            problems, n = [{'problem': 'exception', 'type': type(e).__name__, 'text': str(e)[:300]}], 0
+        n_req += n
+        if problems:
+            failures.append({'id': f'wire_chunk{cs}', 'class': None, 'case': {'payload': 300, 'stream_chunk_size': cs}, 'detail': problems[:3]})
     lib.emit({'status': 'ok', 'cases': enc_cases + n_req, 'distinct': 512 + n_req, 'failures': failures[:12], 'samples': samples,
               'exhaustive_part': 'per-byte encoding of path and query components: all 256 byte values',
               'exhaustive': False, 'reproduced': bool(failures)})
